@@ -37,10 +37,6 @@ func (core *JApiCore) addDirectiveBranch(d *directive.Directive) *jerr.JApiError
 }
 
 func (core *JApiCore) addDirective(d *directive.Directive) *jerr.JApiError {
-	if _, ok := core.bannedDirectives[d.Type()]; ok {
-		return d.KeywordError(fmt.Sprintf("%s (%s)", jerr.DirectiveNotAllowed, d.Type().String()))
-	}
-
 	f, ok := core.directiveFunctions[d.Type()]
 	if !ok { // Path
 		return nil
